@@ -35,6 +35,11 @@ struct ux_socket
 
     char path[UX_NAME_MAX+1];
 
+    /* errno of the operation that found the connection broken; a
+       broken connection must stay broken (the kernel reports
+       e.g., ECONNRESET only once) */
+    int badness_reason;
+
     int64_t cnts[XCM_TP_NUM_MESSAGING_CNTS];
 };
 
@@ -354,6 +359,24 @@ static int ux_accept(struct xcm_socket *conn_s, struct xcm_socket *server_s)
     return 0;
 }
 
+/* errors saying something about this particular call, rather than
+   the connection as such */
+static bool is_transient(int reason)
+{
+    switch (reason) {
+    case EAGAIN:
+    case EINTR:
+    case ENOMEM:
+    case ENOBUFS:
+    case EMSGSIZE:
+    /* peer closed; messages already received are still to be delivered */
+    case EPIPE:
+	return true;
+    default:
+	return false;
+    }
+}
+
 static int ux_send(struct xcm_socket *__restrict s,
 		   const void *__restrict buf, size_t len)
 {
@@ -363,12 +386,17 @@ static int ux_send(struct xcm_socket *__restrict s,
 
     TP_GOTO_ON_INVALID_MSG_SIZE(len, UX_MAX_MSG, err);
 
+    TP_RET_ERR_IF(us->badness_reason != 0, us->badness_reason);
+
     int rc = send(us->fd, buf, len, MSG_NOSIGNAL|MSG_EOR);
 
     ut_assert(rc > 0 ? rc == len : true);
 
-    if (rc < 0)
+    if (rc < 0) {
+	if (!is_transient(errno))
+	    us->badness_reason = errno;
 	goto err;
+    }
 
     LOG_SEND_ACCEPTED(s, buf, len);
     XCM_TP_CNT_MSG_INC(us->cnts, from_app, len);
@@ -389,6 +417,8 @@ static int ux_receive(struct xcm_socket *__restrict s,
 
     LOG_RCV_REQ(s, buf, capacity);
 
+    TP_RET_ERR_IF(us->badness_reason != 0, us->badness_reason);
+
     int rc = recv(us->fd, buf, capacity, MSG_TRUNC);
 
     if (rc > 0) {
@@ -405,6 +435,8 @@ static int ux_receive(struct xcm_socket *__restrict s,
 	return 0;
     } else {
 	LOG_RCV_FAILED(s, errno);
+	if (!is_transient(errno))
+	    us->badness_reason = errno;
 	return -1;
     }
 }
